@@ -115,9 +115,11 @@ class EnumV:
 class CoroV(EnumV):
     """coroutine (async fn body) state: discriminant + the locals saved per suspension variant (the EnumV part) + captured up-vars (fields)"""
     def __init__(self, tag, vars, up): EnumV.__init__(self, tag, vars); self.up = list(up)
-    def field(self, i): return self.up[i]
+    def field(self, i): return self.up[i] if i < len(self.up) else None      # trailing captures the MIR printer elided stay uninitialised (any use is refused)
     def with_field(self, i, v):
-        up = list(self.up); up[i] = v; return CoroV(self.tag, self.vars, up)
+        up = list(self.up)
+        while len(up) <= i: up.append(None)
+        up[i] = v; return CoroV(self.tag, self.vars, up)
     def rebuild(self, tag, vars): return CoroV(tag, vars, self.up)
 class BoxV:
     """Box<T> with inline content"""
@@ -492,6 +494,11 @@ class Engine:
                 if key in self.mir.fn_text: return self.call(key, [], TRUE)
             cands = [n for n in self.mir.fn_text if n.endswith('::' + '::'.join(segs[-2:]))]
             if len(cands) == 1: return self.call(cands[0], [], TRUE)
+            # method of a generic impl: the use site spells `Type::<..>::method::{closure#k}::promoted[i]`, the definition `<impl at ..>::method::..`
+            gi = max([i for i, sg in enumerate(segs) if '<' in sg], default=-1)
+            if 0 <= gi < len(segs) - 2:
+                cands = [n for n in self.mir.fn_text if n.endswith('>::' + '::'.join(segs[gi + 1:]))]
+                if len(cands) == 1: return self.call(cands[0], [], TRUE)
             raise Unsupported('promoted ' + c)
         last = c.split('::')[-1]
         if last in EXTERNAL_CONSTS: return EXTERNAL_CONSTS[last]
